@@ -20,6 +20,6 @@ for seed in a.seeds.split(","):
         rec = {"check": c, "tier": a.tier, "seed": int(seed), "exit": r.returncode, "verdict": last[-1].split(": ", 1)[1].split(";")[0] if last else "?",
                "executions": int(m.group(1)) if m else None, "distinct": int(m.group(2)) if m else None, "wall_s": round(time.time() - t0),
                "known_findings": sum(1 for l in r.stdout.splitlines() if l.startswith("KNOWN-FINDING")),
-               "violation_keys": [l.strip()[:200] for l in r.stdout.splitlines() if l.strip().startswith("key=")][:5], "repo_head": head, "verif_head": vhead}
+               "floor_margin": next((l.strip()[8:] for l in r.stdout.splitlines() if l.startswith("  floors:")), None), "violation_keys": [l.strip()[:200] for l in r.stdout.splitlines() if l.strip().startswith("key=")][:5], "repo_head": head, "verif_head": vhead}
         open(out, "a").write(json.dumps(rec) + "\n")
         print(json.dumps(rec), flush=True)
